@@ -144,8 +144,9 @@ Faults(f) ==
                    : k \in {j \in 1..Len(Fs) : Fs[j].f = "s.padding"}}
     \* the file ends before / inside a field
     \cup UNION {{[kind |-> "trunc", s |-> Fs[k].s, b |-> Fs[k].b, f |-> Fs[k].f, cls |-> w, frame |-> FALSE, file |-> f,
-                  limit |-> FieldOffset(f, k) + (IF w = "before" THEN 0 ELSE IF w = "inside" THEN 1 ELSE Fs[k].len - 1)]
-                   : w \in {"before"} \cup (IF Fs[k].len > 1 THEN {"inside", "last"} ELSE {})} : k \in 1..Len(Fs)}
+                  limit |-> FieldOffset(f, k) + (IF w = "before" THEN 0 ELSE IF w = "inside" THEN 1 ELSE IF w = "aligned" THEN 4 ELSE Fs[k].len - 1)]
+                   : w \in {"before"} \cup (IF Fs[k].len > 1 THEN {"inside", "last"} ELSE {})
+                                      \cup (IF Fs[k].f = "s.padding" /\ Fs[k].len > 4 THEN {"aligned"} ELSE {})} : k \in 1..Len(Fs)}
 
 Flags == [concat |-> TRUE, tellNo |-> FALSE, tellUnsup |-> FALSE, tellAny |-> FALSE, ignoreCheck |-> FALSE]
 Init == \E f \in BaseFiles : \E fl \in Faults(f) :
